@@ -221,7 +221,7 @@ def gen_case(seed, tier, index=0):
         if any(p == "LICENSES/LicenseRef-Odd.txt" for _, p, _ in picks):
             files.append({"path": "src/uses_odd.py", "content": "# SPDX-FileCopyrightText: 2020 J\n# SPDX-License-Identifier: LicenseRef-Odd\n"})
         if any(p == "src/w.png.license" for _, p, _ in picks):
-            files.append({"path": "src/w.png", "content": "\x89PNG\x00\x00"})
+            files.append({"path": "src/w.png", "content": G.BINARY})
         if any(p == ".gitmodules" for _, p, _ in picks):
             case["force_git"] = True
         if rng.chance(0.15):
